@@ -435,6 +435,19 @@ def handle (toks : List String) : String :=
         showNatList (Scales.chunkSizes ds e L) ++ "/" ++
         showNatList (ds.map fun d => Scales.fac L d))
     | _, _, _ => "bad-request"
+  | ["scales-res", sizes, ratios, e, maxs] =>
+    -- like `scales`, but the delays are computed by the model from the resolution ratios n/d to the finest axis
+    match parseList parseNat sizes, (ratios.splitOn ",").mapM parseQ, parseNat e with
+    | some sz, some qs, some e =>
+      if qs.any (fun q => q.n < (q.d : Int) ∨ q.d = 0) then "bad-ratio" else
+      let ds := Scales.delays (qs.map fun q => (q.n.toNat, q.d))
+      let ms := if maxs == "none" then none else parseNat maxs
+      let n := Scales.count sz ds e ms
+      showNatList ds ++ " " ++ ";".intercalate ((List.range n).map fun L =>
+        showNatList ((List.zip sz ds).map fun (s, d) => Scales.sizeAt s L d) ++ "/" ++
+        showNatList (Scales.chunkSizes ds e L) ++ "/" ++
+        showNatList (ds.map fun d => Scales.fac L d))
+    | _, _, _ => "bad-request"
   | ["vol-chunks", size, cs] =>
     match (parseList parseNat size).bind triple, (parseList parseNat cs).bind triple with
     | some s, some c =>
